@@ -1,0 +1,13 @@
+//go:build verif
+
+package storage
+
+// Hook for the out-of-tree verification harness (build tag verif). Add-only; nothing here is
+// compiled into a normal build.
+
+import "github.com/timshannon/badgerhold"
+
+// VerifSetMemtableSize sets the memtable size of the stores opened afterwards (badger zeroes an
+// arena of that size on every Open; with the 64 MiB default this dominates the run time of a
+// harness that opens thousands of stores). A tuning parameter only: no store operation changes.
+func VerifSetMemtableSize(n int64) { badgerhold.DefaultOptions.Options.MaxTableSize = n }
